@@ -123,6 +123,8 @@ pub struct ConcResult {
     pub life_failures: Vec<String>,
     /// `ctl …` request for the Lean resize monitor: the run's accesses to the four control words
     pub ctl_line: String,
+    /// `rw …` requests for the Lean tree-bin lock monitor: one per `lock_state` word the run touched
+    pub rw_lines: Vec<String>,
 }
 
 type M = HashMap<K, V, TableHasher>;
@@ -501,7 +503,57 @@ pub fn run_conc(case: &ConcCase, record_all: bool, budget: usize) -> ConcResult 
             if evs.is_empty() { "-".to_string() } else { evs.join(",") }
         )
     };
-    let mut r = ConcResult { calls, trace, outcome, final_contents, final_snap, wf, panicked, len_final, life_failures, ctl_line };
+    // the projection of the event stream onto each tree bin's lock: `lock_state`, `waiter`,
+    // park / unpark. A `waiter` / park / unpark event belongs to the bin whose `lock_state` the
+    // thread touched last.
+    let rw_lines = {
+        let mut streams: Vec<(usize, Vec<String>)> = vec![]; // (lock_state address, records); closed ones have address 0
+        let mut last_bin: std::collections::HashMap<usize, usize> = Default::default(); // tid -> stream index
+        let tix = |t: usize| if t == usize::MAX { n } else { t };
+        for e in &trace {
+            if e.kind == Kind::Alloc {
+                // a new allocation over a known lock word: that tree bin is gone, its stream ends
+                for st in streams.iter_mut() {
+                    if st.0 != 0 && st.0 >= e.addr && st.0 < e.addr + e.size.max(1) {
+                        st.0 = 0;
+                    }
+                }
+                continue;
+            }
+            let sv = |x: usize| x as isize as i64;
+            if e.what == "lock_state" {
+                let k = match e.kind {
+                    Kind::Load => "ld",
+                    Kind::Cas => "cas",
+                    Kind::Yield => "y",
+                    Kind::Store => "st",
+                    Kind::FetchAdd => "fa",
+                    _ => continue,
+                };
+                let ix = match streams.iter().position(|st| st.0 == e.addr) {
+                    Some(i) => i,
+                    None => {
+                        streams.push((e.addr, vec![]));
+                        streams.len() - 1
+                    }
+                };
+                last_bin.insert(e.tid, ix);
+                streams[ix].1.push(format!("{}:{}:{}:{}:{}", tix(e.tid), k, sv(e.a), sv(e.b), sv(e.seen)));
+            } else if e.what.ends_with("thread::Thread") && matches!(e.kind, Kind::Load | Kind::Swap) {
+                if let Some(&ix) = last_bin.get(&e.tid) {
+                    let k = if e.kind == Kind::Load { "wld" } else { "wsw" };
+                    streams[ix].1.push(format!("{}:{}:{}:0:{}", tix(e.tid), k, (e.a != 0) as u8, (e.seen != 0) as u8));
+                }
+            } else if matches!(e.kind, Kind::BeforePark | Kind::Unpark) {
+                if let Some(&ix) = last_bin.get(&e.tid) {
+                    let k = if e.kind == Kind::BeforePark { "park" } else { "unpark" };
+                    streams[ix].1.push(format!("{}:{}:0:0:0", tix(e.tid), k));
+                }
+            }
+        }
+        streams.into_iter().map(|(_, evs)| format!("rw n={} q={} ev={}", n + 1, (!stuck) as u8, evs.join(","))).collect::<Vec<_>>()
+    };
+    let mut r = ConcResult { calls, trace, outcome, final_contents, final_snap, wf, panicked, len_final, life_failures, ctl_line, rw_lines };
     // Judge before teardown: when the run already shows a violation the map may be corrupt
     // (an entry retired twice, a dangling bin), and dropping it would take the process down
     // before the violation is reported. Such a map is leaked instead.
